@@ -180,6 +180,27 @@ func scenC05(c *ctx) {
 		}
 		gen("parsed", sa, c.someKey(), c.admissibleInput(sa.su.Cfg, i))
 	}
+	// every admissible length of the two padded fields (a layout slip at ONE length is a thin slice)
+	for h := 0; h < 3; h++ {
+		cf := c.handBuilt(31, h, 6+h, []byte("OCRA-1:LEN"))
+		key := c.someKey()
+		for n := minChal(cf.Chal); n <= 128; n++ {
+			if c.quick() && n%4 != 0 && n < 120 && n > minChal(cf.Chal)+2 {
+				continue
+			}
+			in := c.admissibleInput(cf, 3)
+			in.Challenge = c.randBytes(n)
+			gen(fmt.Sprintf("len/q%d", n), cfgSuiteArg(cf), key, in)
+		}
+		for n := 0; n <= 128; n++ {
+			if c.quick() && n%4 != 0 && n < 120 && n > 2 {
+				continue
+			}
+			in := c.admissibleInput(cf, 3)
+			in.SessionInfo = c.randBytes(n)
+			gen(fmt.Sprintf("len/s%d", n), cfgSuiteArg(cf), key, in)
+		}
+	}
 	// hand-built: every field subset x hash x digits, arbitrary suite-string text
 	for mask := 0; mask < 32; mask++ {
 		for h := 0; h < 3; h++ {
